@@ -381,6 +381,22 @@ class Strategy:
             # the sample loop may count something else than the sample number (e.g. the flat index k*n + i): it is re-parametrised by the
             # sample number i = flat index - k*n when the two differ by a shift that does not depend on the loop variable
             shift = sym.subst(idx.r, {_atom(kctx.sym): self.k}) - (self.k * self.n + ictx.sym)
+            whole = shift / self.n
+            if not shift.is_zero() and whole.is_const() and whole.const_value().denominator == 1:
+                # the interval loop counts from another origin (e.g. over the flat start positions n, 2n, ...): interval number = counter + c
+                cshift = C(int(whole.const_value()))
+                mapping[_atom(kctx.sym)] = self.k - cshift
+                kctx = LoopCtx(kctx.lid, kctx.kind, kctx.var, kctx.sym, kctx.lo + cshift, kctx.hi + cshift, kctx.node) if False else kctx
+                klo_, khi_ = kctx.lo + cshift, kctx.hi + cshift
+                sf = StoreFact(e, sym.subst(ilo, mapping), sym.subst(ihi, mapping), sym.subst(idx.r, mapping),
+                               sym.subst(vnum.r, mapping), strip_state(e.data['base']), klo_, khi_,
+                               tuple(g.subst(lambda r: sym.subst(r, mapping)) for g in e.guard))
+                self.stores.append(sf)
+                continue
+            if not shift.is_zero() and (_atom(ictx.sym) in set(sym.all_atoms(shift)) or _atom(self.k) in set(sym.all_atoms(shift))):
+                # e.g. loops over flat start positions / flat sample positions: which interval a sample belongs to is not read off the loop variables
+                raise AnalysisError(f"store at {e.loc()}: the index written is not (interval loop variable) * n + (sample loop variable) up to a constant "
+                                    f"shift: layout not recognised ({sym.show(idx.r)[:80]})")
             if not shift.is_zero() and _atom(ictx.sym) not in set(sym.all_atoms(shift)):
                 mapping[_atom(ictx.sym)] = self.i - shift
                 ilo, ihi = ictx.lo + shift, ictx.hi + shift
